@@ -4,6 +4,6 @@ Require Import ExtrOcamlBasic.
 Extraction Language OCaml.
 Extraction "model.ml" extraction_anchor json_eqb
   collect_coordinates collector_complete_b collector_sound_b coord_eqb
-  seed deny_reason decide_prefetch is_fetch_authorized_from_cache is_fetch_authorized fetch_optype consulted
+  seed deny_reason decide_prefetch is_fetch_authorized_from_cache is_fetch_authorized validate_pre_fetch fetch_optype consulted
   gate_spec_b must_not_send
   denied_absent_b denied_reported_b untouched_b asked_complete_b batch_questions same_tf_set.
